@@ -19,6 +19,8 @@ func (c *ctx) loaderHistory() {
 	}
 	for _, e := range c.r.Events {
 		switch e.Kind {
+		case "load-published-nothing":
+			c.vs("C16/successful-load-published-nothing", c.p.Scen.Format, "a load (%s) reported success and published no configuration: the file's content is not in force, a fresh loader publishes it", e.S)
 		case "watch-published-differs":
 			c.vs("C16/watcher-published-differs-from-fresh", e.S, "step %d: after a change event (sibling %q) and a tick the watcher published a configuration that is not what a fresh loader publishes for the configured file:\n  %s", e.A, e.S, e.Bytes)
 		case "watch-published-unloadable":
